@@ -731,6 +731,21 @@ func (e *endpoint) watchPoll(ctx context.Context, pollingInterval uint32, nonRec
 		// Grab the scan lock.
 		e.lockScanLock(context.Background())
 
+		// Determine the baseline against which we'll check for modifications.
+		// This needs to be the most recent snapshot generated by the endpoint,
+		// which isn't necessarily the snapshot from our previous polling scan,
+		// because Scan may have performed a full (non-accelerated) scan in the
+		// interim and handed its result to the controller. If we compared
+		// against our previous polling scan in that case, then we'd fail to
+		// detect a modification that restores the state seen by our previous
+		// polling scan (e.g. the removal of content that the controller just
+		// observed or created), and the controller would never be notified
+		// that its view of the filesystem is out of date.
+		baseline := previous
+		if e.snapshot != nil {
+			baseline = e.snapshot
+		}
+
 		// Disable the use of the existing scan results.
 		e.accelerate = false
 
@@ -766,7 +781,7 @@ func (e *endpoint) watchPoll(ctx context.Context, pollingInterval uint32, nonRec
 		e.unlockScanLock()
 
 		// Check for modifications.
-		modified := !snapshot.Equal(previous)
+		modified := !snapshot.Equal(baseline)
 
 		// If we have a working non-recursive watcher, or we're performing trace
 		// logging, then perform a full diff to determine what's changed. This
